@@ -270,7 +270,7 @@ def group_arrays(tlist):
 def group_operator(tlist):
     ttypes = T_NUMERICAL + T_STRING + T_NAME
     sqlcls = (sql.SquareBrackets, sql.Parenthesis, sql.Function,
-              sql.Identifier, sql.Operation, sql.TypedLiteral)
+              sql.Identifier, sql.Operation, sql.TypedLiteral, sql.Case)
 
     def match(token):
         return imt(token, t=(T.Operator, T.Wildcard))
